@@ -815,17 +815,6 @@ KEYWRITE_FALLBACK = ['opaque keyWriteInit : WriteMode', 'opaque keyWriteAddKey :
 OPEN_FLAGS = {'O_WRONLY', 'O_RDWR', 'O_CREAT', 'O_TRUNC', 'O_APPEND', 'O_EXCL', 'O_CLOEXEC', 'O_NOFOLLOW', 'O_BINARY', 'O_SYNC', 'O_DSYNC', 'O_NOCTTY'}
 
 
-def _flag_names(node):
-    """`os.O_WRONLY | os.O_CREAT | …` → set of names"""
-    if isinstance(node, ast.BinOp) and isinstance(node.op, ast.BitOr):
-        return _flag_names(node.left) | _flag_names(node.right)
-    s = ast.unparse(node)
-    nm = s[len('os.'):] if s.startswith('os.') else s
-    if nm not in OPEN_FLAGS:
-        raise NotRecognised(f'open flag {s}')
-    return {nm}
-
-
 def _mode_of_string(mode, on_descriptor=False):
     if not isinstance(mode, str):
         raise NotRecognised(f'open mode {mode!r}')
@@ -838,15 +827,6 @@ def _mode_of_string(mode, on_descriptor=False):
     if '+' in mode:
         return None if on_descriptor else 'inPlace'
     raise NotRecognised(f'key file opened with mode {mode!r}')
-
-
-def _open_mode_arg(call, pos):
-    for kw in call.keywords:
-        if kw.arg == 'mode':
-            return ast.literal_eval(kw.value)
-    if len(call.args) > pos:
-        return ast.literal_eval(call.args[pos])
-    return 'r'
 
 
 def _flag_names_t(t):
